@@ -2356,4 +2356,278 @@ theorem idx_toString (n : Nat) (h : n < 4294967295) : Fn.idx? (toString n) = som
       · rename_i heq; simp at heq; exact absurd heq.1 hc0
       · simp [hdv, h]
 
+/-! ## entering function code: the whole instantiation, spec side and model side -/
+
+theorem interp_param (args : List Fn.V) (fa : Nat → Nat) (ao : Fn.V) (k : Nat) :
+    interp args fa ao (Call.paramSlot args.length k) = args[k]?.getD .undef := by
+  unfold Call.paramSlot
+  by_cases h : k < args.length
+  · simp [h, interp]
+  · have : args[k]? = none := by simp; omega
+    simp [h, interp, this]
+
+theorem mkArguments_run (σ : Fn.St) (ps : List String) (args : List Fn.V) (i : Nat) (fv : Fn.V) :
+    (Fn.mkArguments σ ps args i fv).1 = .ref σ.heap.length ∧ (Fn.mkArguments σ ps args i fv).2.envs = σ.envs := by
+  simp [Fn.mkArguments, Fn.St.alloc]
+
+/-- **§10.5 on FnSpec's record**: after `Fn.instantiate` the new declarative record holds exactly CallModel.specInst,
+    each slot standing for: the i-th argument, the closure allocated for the j-th declaration (`h0 + 2·j`), the
+    arguments object (allocated after the closures) -/
+theorem instantiate_spec (n i : Nat) (c : Fn.Ctx) (ps : List String) (args : List Fn.V) (fv : Fn.V) (ds : Fn.FDecls)
+    (vs : List String) (σ1 : Fn.St) (env0 : Fn.Env) (hi : i ≠ 0) (hn : (declNames ds).length < n)
+    (he : σ1.envs[i]? = some env0) (hv0 : env0.vars = []) :
+    ∃ σ5 vars', Fn.instantiate n i c ps args fv ds vs σ1 = .ok () σ5 ∧ σ5.envs[i]? = some { env0 with vars := vars' } ∧
+      RelEnvS (interp args (fun j => σ1.heap.length + 2 * j) (.ref (σ1.heap.length + 2 * (declNames ds).length))) vars'
+        (Call.specInst ps args.length (declNames ds) vs) := by
+  let I := interp args (fun j => σ1.heap.length + 2 * j) (.ref (σ1.heap.length + 2 * (declNames ds).length))
+  have hIp : ∀ k, I (Call.paramSlot args.length k) = args[k]?.getD .undef := interp_param args _ _
+  have hr0 : RelEnvS I env0.vars [] := by simp [RelEnvS, hv0]
+  -- step 4
+  obtain ⟨v2, hrun2, hrel2⟩ := paramsFold_spec I args i hi hIp ps 0 σ1 env0 [] he hr0
+  have he2 := withVars_env σ1 i env0 v2 he
+  have hh2 : (withVars σ1 i env0 v2).heap.length = σ1.heap.length + 2 * 0 := rfl
+  -- step 5
+  obtain ⟨v3, σ3, hrun3, he3, hrel3, hlen3⟩ := bindDecls_spec I i hi c σ1.heap.length (fun j => rfl) (declNames ds).length ds rfl n
+    (withVars σ1 i env0 v2) { env0 with vars := v2 } _ 0 hn he2 hrel2 hh2
+  -- steps 6–7
+  have hl3 := relS_lookup I "arguments" (Call.bindFns (declNames ds) 0 (Call.bindParams args.length ps 0 []))
+  have hv3 : v3 = (Call.bindFns (declNames ds) 0 (Call.bindParams args.length ps 0 [])).map fun ks => (ks.1, I ks.2) := hrel3
+  unfold Fn.instantiate
+  simp only [List.range_eq_range']
+  have hfold : (List.zip (List.range' 0 ps.length) ps).foldl (fun s (x : Nat × String) => Fn.bindIn s i x.2 (args[x.1]?.getD .undef) true) σ1 =
+      withVars σ1 i env0 v2 := hrun2
+  simp only [hfold, hrun3, he3]
+  cases hla : Call.lookup "arguments" (Call.bindFns (declNames ds) 0 (Call.bindParams args.length ps 0 [])) with
+  | some s =>
+    have hl : Fn.lookupA "arguments" v3 = some (I s) := by rw [hv3, hl3, hla]; rfl
+    simp only [hl]
+    obtain ⟨v5, hrun5, hrel5⟩ := varsFold_spec I i hi rfl vs σ3 { env0 with vars := v3 } _ he3 hrel3
+    refine ⟨_, v5, rfl, ?_, ?_⟩
+    · rw [hrun5]; exact withVars_env σ3 i _ v5 he3
+    · simpa [Call.specInst, Call.specArgs, hla] using hrel5
+  | none =>
+    have hl : Fn.lookupA "arguments" v3 = none := by rw [hv3, hl3, hla]; rfl
+    simp only [hl]
+    obtain ⟨hav, haenv⟩ := mkArguments_run σ3 ps args i fv
+    have he4 : (Fn.mkArguments σ3 ps args i fv).2.envs[i]? = some { env0 with vars := v3 } := by rw [haenv]; exact he3
+    have hb := bindIn_env (Fn.mkArguments σ3 ps args i fv).2 i { env0 with vars := v3 } "arguments" (Fn.mkArguments σ3 ps args i fv).1 true hi he4
+    have hao : (Fn.mkArguments σ3 ps args i fv).1 = I .argumentsObj := by
+      rw [hav, hlen3]; simp [I, interp]
+    have hrel4 : RelEnvS I (setVarS "arguments" (Fn.mkArguments σ3 ps args i fv).1 v3 true)
+        (Call.setValue "arguments" .argumentsObj (Call.bindFns (declNames ds) 0 (Call.bindParams args.length ps 0 []))) := by
+      rw [hao]; exact relS_setValue I "arguments" .argumentsObj v3 _ hrel3
+    have he5 := withVars_env (Fn.mkArguments σ3 ps args i fv).2 i { env0 with vars := v3 } (setVarS "arguments" (Fn.mkArguments σ3 ps args i fv).1 v3 true) he4
+    obtain ⟨v5, hrun5, hrel5⟩ := varsFold_spec I i hi rfl vs _ _ _ he5 hrel4
+    refine ⟨vs.foldl (fun s x => Fn.bindIn s i x .undef false)
+        (withVars (Fn.mkArguments σ3 ps args i fv).2 i { env0 with vars := v3 }
+          (setVarS "arguments" (Fn.mkArguments σ3 ps args i fv).1 v3 true)), v5, ?_, ?_, ?_⟩
+    · simp only [hb]
+    · rw [hrun5]; exact withVars_env _ i _ v5 he5
+    · rw [setValue_absent "arguments" .argumentsObj _ hla] at hrel5
+      simpa [Call.specInst, Call.specArgs, hla] using hrel5
+
+/-- nothing but the heap's objects changes, and no object changes its `value` (class data) -/
+structure HeapOnly (σ σ' : FnM.St) : Prop where
+  stashes : σ'.stashes = σ.stashes
+  scopes : σ'.scopes = σ.scopes
+  len : σ'.heap.length = σ.heap.length
+  val : ∀ a, (σ'.obj? a).map (·.val) = (σ.obj? a).map (·.val)
+
+theorem HeapOnly.refl (σ : FnM.St) : HeapOnly σ σ := ⟨rfl, rfl, rfl, fun _ => rfl⟩
+
+theorem HeapOnly.trans {σ1 σ2 σ3 : FnM.St} (h1 : HeapOnly σ1 σ2) (h2 : HeapOnly σ2 σ3) : HeapOnly σ1 σ3 :=
+  ⟨h2.stashes.trans h1.stashes, h2.scopes.trans h1.scopes, h2.len.trans h1.len, fun a => (h2.val a).trans (h1.val a)⟩
+
+theorem heapOnly_setObj (σ : FnM.St) (a : Nat) (o o' : FnM.Obj) (ho : σ.obj? a = some o) (hv : o'.val = o.val) :
+    HeapOnly σ { σ with heap := Fn.setNth σ.heap a o' } := by
+  refine ⟨rfl, rfl, setNth_length _ _ _, ?_⟩
+  intro b
+  simp only [FnM.St.obj?]
+  by_cases hb : a = b
+  · subst hb
+    have hlt : a < σ.heap.length := (List.getElem?_eq_some_iff.1 ho).1
+    rw [getElem?_setNth_self σ.heap a o' hlt]
+    simp only [FnM.St.obj?] at ho
+    simp [ho, hv]
+  · rw [getElem?_setNth_ne σ.heap a b o' hb]
+
+theorem odop_frame (σ : FnM.St) (a : Nat) (x : String) (d : FnM.Pty) :
+    ∃ b σ', FnM.objectDefineOwnProperty a x d false σ = .ok b σ' ∧ HeapOnly σ σ' := by
+  unfold FnM.objectDefineOwnProperty
+  simp only [bind_run, getSt_run]
+  cases ho : σ.obj? a with
+  | none => exact ⟨false, σ, rfl, HeapOnly.refl σ⟩
+  | some o =>
+    simp only []
+    cases hl : Fn.lookupA x o.props with
+    | none =>
+      simp only [bind_run, setObj_run, pure_run]
+      exact ⟨true, _, rfl, heapOnly_setObj σ a o _ ho rfl⟩
+    | some p =>
+      simp only []
+      split
+      · exact ⟨false, σ, rfl, HeapOnly.refl σ⟩
+      · split
+        · exact ⟨false, σ, rfl, HeapOnly.refl σ⟩
+        · simp only [bind_run, setObj_run, pure_run]
+          exact ⟨true, _, rfl, heapOnly_setObj σ a o _ ho rfl⟩
+
+theorem defineOwnProperty_unmapped (σ : FnM.St) (a : Nat) (o : FnM.Obj) (x : String) (d : FnM.Pty) (thr : Bool)
+    (ho : σ.obj? a = some o) (hm : mapGetP σ o x = none) :
+    FnM.defineOwnProperty a x d thr σ = FnM.objectDefineOwnProperty a x d thr σ := by
+  unfold FnM.defineOwnProperty
+  cases hv : o.val with
+  | arguments ipn st => simp only [bind_run, getSt_run, ho, hv, argumentsMapGet_run, hm]
+  | _ => simp only [bind_run, getSt_run, ho, hv]
+
+theorem mapGetP_nonindex (σ : FnM.St) (o : FnM.Obj) (x : String) (h : Fn.idx? x = none) : mapGetP σ o x = none := by
+  unfold mapGetP
+  cases o.val <;> simp [FnM.arrayIndex, h]
+
+/-- type_arguments.go:7 newArgumentsObject: one object is allocated at the end of the heap; it is an arguments
+    object with the given parameter map -/
+theorem newArgumentsObject_run (ipn : List String) (stash len : Nat) (σ : FnM.St) :
+    ∃ σ', FnM.newArgumentsObject ipn stash len σ = .ok σ.heap.length σ' ∧ σ'.stashes = σ.stashes ∧ σ'.scopes = σ.scopes ∧
+      σ'.heap.length = σ.heap.length + 1 ∧ (σ'.obj? σ.heap.length).map (·.val) = some (.arguments ipn stash) := by
+  unfold FnM.newArgumentsObject
+  simp only [bind_run, allocObj_run, FnM.defineProperty]
+  generalize hao : FnM.argumentsObject ipn stash = ao
+  let σ1 : FnM.St := { σ with heap := σ.heap ++ [ao] }
+  have h1 : σ1.obj? σ.heap.length = some ao := by simp [FnM.St.obj?, σ1]
+  have hm : mapGetP σ1 ao "length" = none := mapGetP_nonindex σ1 ao "length" (by decide)
+  rw [show ({ σ with heap := σ.heap ++ [ao] } : FnM.St) = σ1 from rfl, defineOwnProperty_unmapped σ1 _ ao "length" _ false h1 hm]
+  obtain ⟨b, σ', hrun, hf⟩ := odop_frame σ1 σ.heap.length "length" (FnM.p101 (.num len))
+  rw [hrun]
+  refine ⟨σ', rfl, hf.stashes, hf.scopes, ?_, ?_⟩
+  · rw [hf.len]; simp [σ1]
+  · rw [hf.val, h1, ← hao]; rfl
+
+theorem defineUnmapped_frame (a : Nat) (ipn : List String) (stash : Nat) (args : List Fn.V) :
+    ∀ (k index : Nat) (σ : FnM.St), (σ.obj? a).map (·.val) = some (.arguments ipn stash) → index + k < 4294967295 →
+      ∃ σ', FnM.defineUnmapped a ipn args k index σ = .ok () σ' ∧ HeapOnly σ σ' := by
+  intro k
+  induction k with
+  | zero => intro index σ _ _; exact ⟨σ, rfl, HeapOnly.refl σ⟩
+  | succ k ih =>
+    intro index σ hv hb
+    rw [FnM.defineUnmapped]
+    by_cases hm : (ipn[index]?.getD "" != "") = true
+    · simp only [hm, if_true, bind_run, pure_run]
+      exact ih (index + 1) σ hv (by omega)
+    · simp only [hm, Bool.false_eq_true, if_false, bind_run, FnM.defineProperty]
+      cases ho : σ.obj? a with
+      | none => rw [ho] at hv; simp at hv
+      | some o =>
+        rw [ho] at hv
+        simp only [Option.map_some, Option.some.injEq] at hv
+        have hmg : mapGetP σ o (toString index) = none := by
+          simp only [mapGetP, hv, FnM.arrayIndex, idx_toString index (by omega)]
+          cases hp : ipn[index]? with
+          | none => rfl
+          | some pn =>
+            rw [hp] at hm
+            simp only [Option.getD_some, bne_iff_ne, ne_eq, Decidable.not_not] at hm
+            simp [hm]
+        rw [defineOwnProperty_unmapped σ a o _ _ false ho hmg]
+        obtain ⟨b, σ1, hrun, hf⟩ := odop_frame σ a (toString index) (FnM.p111 (args[index]?.getD .undef))
+        rw [hrun]
+        simp only [pure_run]
+        have hv1 : (σ1.obj? a).map (·.val) = some (.arguments ipn stash) := by rw [hf.val, ho]; simp [hv]
+        obtain ⟨σ', hrun', hf'⟩ := ih (index + 1) σ1 hv1 (by omega)
+        exact ⟨σ', hrun', hf.trans hf'⟩
+
+theorem relEnv_nil (I : Call.Slot → Fn.V) : RelEnv I [] [] := rfl
+theorem allMutable_nil : AllMutable [] := fun _ h => by simp at h
+
+/-- **§10.5 on otto's function stash**: what cmplCallNodeFunction does before the body runs leaves, in the fresh
+    function stash, exactly CallModel.modelInst — each slot standing for the i-th argument, the closure allocated
+    for the j-th declaration, the arguments object (allocated BEFORE the closures, unlike ES5's order) -/
+theorem instantiateNode_real (n function st : Nat) (ps vs : List String) (ds : Fn.FDecls) (args : List Fn.V) (σ : FnM.St)
+    (outer : Option Nat) (sc : FnM.Scope) (rest : List FnM.Scope)
+    (hsc : σ.scopes = sc :: rest) (hlex : sc.lexical = st) (hvar : sc.variable_ = st) (hev : sc.eval = false)
+    (hs : σ.stash? st = some (.fn outer [] none)) (hn : (declNames ds).length < n) (hlen : args.length < 4294967295) :
+    ∃ σ' ps' ar', FnM.instantiateNode n function st ps vs ds args σ = .ok () σ' ∧
+      σ'.stash? st = some (.fn outer ps' ar') ∧
+      RelEnv (interp args (fun j => σ.heap.length + (if ps.contains "arguments" then 0 else 1) + 2 * j) (.ref σ.heap.length)) ps'
+        (Call.modelInst ps args.length (declNames ds) vs) := by
+  let hF := σ.heap.length + (if ps.contains "arguments" then 0 else 1)
+  let I := interp args (fun j => hF + 2 * j) (.ref σ.heap.length)
+  have hIp : ∀ k, I (Call.paramSlot args.length k) = args[k]?.getD .undef := interp_param args _ _
+  have hIf : ∀ j, I (.fn j) = .ref (hF + 2 * j) := fun j => rfl
+  obtain ⟨ps1, hrun1, hrel1, hmut1⟩ := bindParams_real I args st outer none hIp ps 0 σ [] [] hs allMutable_nil (relEnv_nil I)
+  obtain ⟨σ1, hσ1⟩ : ∃ s, s = withStash σ st outer ps1 none := ⟨_, rfl⟩
+  have hs1 : σ1.stash? st = some (.fn outer ps1 none) := by rw [hσ1]; exact withStash_stash σ st outer [] ps1 none hs
+  have hsc1 : σ1.scopes = sc :: rest := by rw [hσ1]; exact hsc
+  have hσ1len : σ1.heap.length = σ.heap.length := by rw [hσ1]; rfl
+  unfold FnM.instantiateNode
+  simp only [bind_run, curScope_run σ sc rest hsc, hlex, hrun1]
+  rw [← hσ1]
+  cases hc : ps.contains "arguments" with
+  | true =>
+    have hF0 : hF = σ.heap.length := by simp only [hF, hc, if_true, Nat.add_zero]
+    try simp only [Bool.not_true, Bool.false_eq_true, if_false, pure_run]
+    obtain ⟨ps2, σ2, hrun2, hs2, hrel2, hmut2, hsc2, _⟩ := functionDeclaration_real I st outer none sc rest hvar hev hF hIf ds n σ1 ps1 _ 0 hn hsc1 hs1 hmut1 hrel1
+      (by rw [hσ1len]; omega)
+    have hsc2' : σ2.scopes = sc :: rest := by rw [hsc2]; exact hsc1
+    obtain ⟨ps3, hrun3, hrel3, _⟩ := variableDeclaration_real I st outer none sc rest hvar hev rfl vs σ2 ps2 _ hsc2' hs2 hmut2 hrel2
+    refine ⟨_, ps3, none, ?_, withStash_stash σ2 st outer ps2 ps3 none hs2, ?_⟩
+    · simp only [bind_run]
+      rw [hrun2]
+      simp only []; rw [hrun3]
+    · have hmem : "arguments" ∈ ps := by simpa using hc
+      simpa [Call.modelInst, Call.modelArgs, hc, I, hF, hmem] using hrel3
+  | false =>
+    have hF1 : hF = σ.heap.length + 1 := by simp only [hF, hc, Bool.false_eq_true, if_false]
+    try simp only [Bool.not_false, if_true, bind_run]
+    -- the arguments object
+    obtain ⟨σ2, hrunA, hst2, hsc2, hlen2, hval2⟩ := newArgumentsObject_run (FnM.indexOfParameterNames ps args.length) st args.length σ1
+    rw [hσ1len] at hrunA hval2 hlen2
+    simp only [hrunA]
+    -- callee
+    cases ho2 : σ2.obj? σ.heap.length with
+    | none => rw [ho2] at hval2; simp at hval2
+    | some o2 =>
+      have hm2 : mapGetP σ2 o2 "callee" = none := mapGetP_nonindex σ2 o2 "callee" (by decide)
+      obtain ⟨b3, σ3, hrun3, hf3⟩ := odop_frame σ2 σ.heap.length "callee" (FnM.p101 (.ref function))
+      simp only [FnM.defineProperty, defineOwnProperty_unmapped σ2 _ o2 "callee" _ false ho2 hm2, hrun3, getSt_run]
+      have hs3 : σ3.stash? st = some (.fn outer ps1 none) := by
+        simp only [FnM.St.stash?, hf3.stashes, hst2]; exact hs1
+      simp only [hs3, setStash_run]
+      -- stash.arguments, then the binding `arguments`
+      let σ4 : FnM.St := { σ3 with stashes := Fn.setNth σ3.stashes st (.fn outer ps1 (some σ.heap.length)) }
+      have hs4 : σ4.stash? st = some (.fn outer ps1 (some σ.heap.length)) := by
+        simp only [FnM.St.stash?, σ4]
+        exact getElem?_setNth_self _ _ _ (by simp only [FnM.St.stash?] at hs3; exact (List.getElem?_eq_some_iff.1 hs3).1)
+      have hrun5 := setValue_fn_run σ4 st outer ps1 (some σ.heap.length) "arguments" (.ref σ.heap.length) hs4 hmut1
+      rw [show ({ σ3 with stashes := Fn.setNth σ3.stashes st (.fn outer ps1 (some σ.heap.length)) } : FnM.St) = σ4 from rfl, hrun5]
+      simp only []
+      let ps5 := setValueL "arguments" (.ref σ.heap.length) ps1
+      let σ5 : FnM.St := { σ4 with stashes := Fn.setNth σ4.stashes st (.fn outer ps5 (some σ.heap.length)) }
+      have hs5 : σ5.stash? st = some (.fn outer ps5 (some σ.heap.length)) := by
+        simp only [FnM.St.stash?, σ5]
+        exact getElem?_setNth_self _ _ _ (by simp only [FnM.St.stash?] at hs4; exact (List.getElem?_eq_some_iff.1 hs4).1)
+      have hv5 : (σ5.obj? σ.heap.length).map (·.val) = some (.arguments (FnM.indexOfParameterNames ps args.length) st) := by
+        show (σ3.obj? σ.heap.length).map (·.val) = _
+        rw [hf3.val]; exact hval2
+      obtain ⟨σ6, hrun6, hf6⟩ := defineUnmapped_frame σ.heap.length (FnM.indexOfParameterNames ps args.length) st args
+        args.length 0 σ5 hv5 (by omega)
+      rw [show ({ σ4 with stashes := Fn.setNth σ4.stashes st (.fn outer (setValueL "arguments" (.ref σ.heap.length) ps1) (some σ.heap.length)) } : FnM.St) = σ5 from rfl, hrun6]
+      simp only []
+      have hs6 : σ6.stash? st = some (.fn outer ps5 (some σ.heap.length)) := by
+        simp only [FnM.St.stash?, hf6.stashes]; exact hs5
+      have hsc6 : σ6.scopes = sc :: rest := by
+        rw [hf6.scopes]; show σ3.scopes = _; rw [hf3.scopes, hsc2]; exact hsc1
+      have hlen6 : σ6.heap.length = hF + 2 * 0 := by
+        rw [hf6.len]; show σ3.heap.length = _; rw [hf3.len, hlen2, hF1]
+      have hrel5 : RelEnv I ps5 (Call.setValue "arguments" .argumentsObj (Call.bindParams args.length ps 0 [])) :=
+        rel_setValue I "arguments" .argumentsObj _ ps1 hrel1
+      obtain ⟨ps7, σ7, hrun7, hs7, hrel7, hmut7, hsc7, _⟩ := functionDeclaration_real I st outer (some σ.heap.length) sc rest hvar hev hF hIf ds n σ6 ps5 _ 0 hn hsc6 hs6
+        (allMutable_setValueL "arguments" _ ps1 hmut1) hrel5 hlen6
+      have hsc7' : σ7.scopes = sc :: rest := by rw [hsc7]; exact hsc6
+      obtain ⟨ps8, hrun8, hrel8, _⟩ := variableDeclaration_real I st outer (some σ.heap.length) sc rest hvar hev rfl vs σ7 ps7 _ hsc7' hs7 hmut7 hrel7
+      refine ⟨_, ps8, some σ.heap.length, ?_, withStash_stash σ7 st outer ps7 ps8 _ hs7, ?_⟩
+      · rw [hrun7]; simp only []; rw [hrun8]
+      · have hnm : "arguments" ∉ ps := by simpa using hc
+        simpa [Call.modelInst, Call.modelArgs, hc, I, hF, hnm] using hrel8
+
 end OttoVerif.C01.FnRefine
